@@ -22,31 +22,43 @@ import HcProofs.Lemmas.Catalog
 namespace Hc.Props.C14
 open Hc.Ids
 
-/-- UpdateIDs numbers service, its characteristics, next service, … consecutively from the accessory's counter. -/
+/-- UpdateIDs numbers service, its characteristics, next service, … consecutively from 1 — whatever the accessory's
+    counter was (however often it was numbered before; F49 repair). -/
 theorem instance_ids_sequential (a : Acc) :
-    flatIds a.updateIDs.svcs = List.range' a.idCount (size a.svcs) ∧
-    a.updateIDs.idCount = a.idCount + size a.svcs ∧
+    flatIds a.updateIDs.svcs = List.range' 1 (size a.svcs) ∧
+    a.updateIDs.idCount = 1 + size a.svcs ∧
     shape a.updateIDs.svcs = shape a.svcs := by
   have h := updateIDs_seq a
   have hs : shape a.updateIDs.svcs = shape a.svcs := assignSvcs_shape _ _
   exact ⟨by rw [h.1, size_eq_of_shape hs], h.2, hs⟩
 
-/-- … hence, for a counter ≥ 1 (accessory.New starts it at 1), all instance ids of the accessory are pairwise
-    different and non-zero. -/
-theorem instance_ids_unique_nonzero (a : Acc) (h : 1 ≤ a.idCount) :
+/-- … hence all instance ids of the accessory are pairwise different and non-zero. -/
+theorem instance_ids_unique_nonzero (a : Acc) :
     (flatIds a.updateIDs.svcs).Nodup ∧ ∀ i ∈ flatIds a.updateIDs.svcs, i ≠ 0 := by
   rw [(instance_ids_sequential a).1]
-  exact range'_nodup_nonzero _ _ h
-
-example : ∀ s : AccSpec, 1 ≤ s.build.idCount := fun _ => Nat.le_refl 1
+  exact range'_nodup_nonzero _ _ (Nat.le_refl 1)
 
 /-- The ids depend on the construction order only: two accessories with the same number of characteristics per
-    service (in order) and the same counter get identical service and characteristic ids — whatever the types,
-    values, flags or links of the services are. -/
-theorem ids_deterministic (a b : Acc) (hs : shape a.svcs = shape b.svcs) (hc : a.idCount = b.idCount) :
+    service (in order) get identical service and characteristic ids — whatever the types, values, flags or links of
+    the services are, and whatever happened to either object before (no hypothesis on the counters: the earlier form of
+    this theorem assumed them equal, which is exactly what a refused or repeated `AddAccessory` broke). -/
+theorem ids_deterministic (a b : Acc) (hs : shape a.svcs = shape b.svcs) :
     a.updateIDs.svcs.map (fun s => (s.id, s.chars)) = b.updateIDs.svcs.map (fun s => (s.id, s.chars)) := by
-  simp only [Acc.updateIDs, hc]
+  simp only [Acc.updateIDs]
   exact assignSvcs_ids_of_shape _ _ _ hs
+
+/-- Numbering an accessory again changes nothing: `AddAccessory` on an accessory that is already in the container (the
+    call is refused), or a second container built from the same objects, leaves every instance id as it was. -/
+theorem renumbering_is_idempotent (a : Acc) :
+    a.updateIDs.updateIDs.svcs.map (fun s => (s.id, s.chars)) = a.updateIDs.svcs.map (fun s => (s.id, s.chars)) :=
+  ids_deterministic a.updateIDs a (assignSvcs_shape _ _)
+
+/-- Before the repair the second numbering went on from the counter the first one had left: the ids of a live accessory
+    changed when a duplicate `AddAccessory` was refused. -/
+theorem renumbering_unfixed_refuted :
+    let a : Acc := { id := 1, idCount := 1, svcs := [{ id := 0, chars := [0, 0] }] }
+    flatIds a.updateIDsOld.svcs = [1, 2, 3] ∧ flatIds a.updateIDsOld.updateIDsOld.svcs = [4, 5, 6] ∧
+    flatIds a.updateIDs.updateIDs.svcs = [1, 2, 3] := by decide
 
 /-- A newly constructed accessory gets, when it is first added, the ids 1, 2, 3, … — the same after every restart. -/
 theorem fresh_accessory_ids_from_one (s : AccSpec) :
